@@ -29,8 +29,15 @@ WellFormed(fs) == fs.sub = "absent" => fs.c = "absent"
 (* p = "L" names  what = "dir":  the prefix of 4 / 8 / 15 components (len 1 / 2 / 3 = about      *)
 (* 1 / 2 / 3.8 KiB), an existing directory;  what = "miss": <that prefix>/miss-<idx>, absent     *)
 (* until somebody creates it (ls = regular files, lk = symlinks created there).                  *)
+(* Interacting directory chains (MkdirAll items whose parents depend on each other):            *)
+(*   /w/l  (tl: absent | dir | file | link = symlink -> /w/t)     /w/t  (tt: absent | dir)        *)
+(*   item p = "ld" names /w/l/d/f, item p = "td" names /w/t/d/g.  Through the link /w/l/d IS      *)
+(*   /w/t/d, so an earlier item's MkdirAll can fail (dangling link) while a later item of the     *)
+(*   same batch makes that directory resolvable.  dl / dt: the directories /w/l/d (l a real       *)
+(*   directory) and /w/t/d exist; fl / ft: the file names present in them.                        *)
 Planted(k) == IF k \in {"regular", "unreadable"} THEN [size |-> 8, og |-> TRUE] ELSE [size |-> 0, og |-> FALSE]
 Internal(f) == [a |-> f.a, b |-> f.b, sub |-> f.sub, c |-> f.c, ns |-> 1..f.n, ld |-> f.ld, ls |-> {}, lk |-> {},
+                tl |-> f.tl, tt |-> f.tt, dl |-> FALSE, dt |-> FALSE, fl |-> {}, ft |-> {},
                 ct |-> [a |-> Planted(f.a), b |-> Planted(f.b), c |-> Planted(IF f.sub = "dir" THEN f.c ELSE "absent"),
                         target |-> Planted("regular")]]
 LongKind(fs, x) ==
@@ -73,11 +80,38 @@ SetKind(fs, p, k) ==
   CASE p = "a" -> [fs EXCEPT !.a = k] [] p = "b" -> [fs EXCEPT !.b = k] [] p = "c" -> [fs EXCEPT !.c = k]
     [] OTHER -> fs
 
-ItemKind(fs, it) == IF it.p = "n" THEN (IF it.idx \in fs.ns THEN "regular" ELSE "absent")
+(* which real directory the parent of a tree item is: "L" = /w/l/d, "T" = /w/t/d, "none" = unresolvable *)
+TreeDir(fs, p) ==
+  IF p = "td" THEN (IF fs.tt = "dir" /\ fs.dt THEN "T" ELSE "none")
+  ELSE IF fs.tl = "dir" THEN (IF fs.dl THEN "L" ELSE "none")
+  ELSE IF fs.tl = "link" /\ fs.tt = "dir" /\ fs.dt THEN "T" ELSE "none"
+TreeName(p) == IF p = "ld" THEN "f" ELSE "g"
+TreeKind(fs, p) ==
+  LET D == TreeDir(fs, p) IN
+  IF D = "none" THEN "noparent"
+  ELSE IF TreeName(p) \in (IF D = "L" THEN fs.fl ELSE fs.ft) THEN "regular" ELSE "absent"
+TreeCreate(fs, p) == IF TreeDir(fs, p) = "L" THEN [fs EXCEPT !.fl = @ \cup {TreeName(p)}]
+                     ELSE [fs EXCEPT !.ft = @ \cup {TreeName(p)}]
+
+(* os.MkdirAll of the parent directory of an item: [ok, fs].  It follows links like any path walk: *)
+(* through a dangling link it fails (the link is in the way), through a file it fails, through a  *)
+(* link to a directory it creates inside the link's target.                                      *)
+MkdirFor(fs, it) ==
+  CASE it.p = "c"  -> [ok |-> TRUE, fs |-> IF fs.sub = "absent" THEN [fs EXCEPT !.sub = "dir", !.c = "absent"] ELSE fs]
+    [] it.p = "td" -> [ok |-> TRUE, fs |-> [fs EXCEPT !.tt = "dir", !.dt = TRUE]]
+    [] it.p = "ld" ->
+         CASE fs.tl = "absent" -> [ok |-> TRUE, fs |-> [fs EXCEPT !.tl = "dir", !.dl = TRUE]]
+           [] fs.tl = "dir"    -> [ok |-> TRUE, fs |-> [fs EXCEPT !.dl = TRUE]]
+           [] fs.tl = "file"   -> [ok |-> FALSE, fs |-> fs]
+           [] fs.tl = "link"   -> IF fs.tt = "dir" THEN [ok |-> TRUE, fs |-> [fs EXCEPT !.dt = TRUE]]
+                                  ELSE [ok |-> FALSE, fs |-> fs]
+    [] OTHER -> [ok |-> TRUE, fs |-> fs]            \* the parent exists
+
+ItemKind(fs, it) == IF it.p \in {"ld", "td"} THEN TreeKind(fs, it.p) ELSE IF it.p = "n" THEN (IF it.idx \in fs.ns THEN "regular" ELSE "absent")
                     ELSE IF it.p = "L" THEN LongKind(fs, it) ELSE KindOf(fs, it.p)
 NoContent == [size |-> 0, og |-> FALSE]
 SetContent(fs, p, v) == IF p \in Tracked THEN [fs EXCEPT !.ct[p] = v] ELSE fs
-Created(fs, it) == IF it.p = "n" THEN [fs EXCEPT !.ns = @ \cup {it.idx}]
+Created(fs, it) == IF it.p \in {"ld", "td"} THEN TreeCreate(fs, it.p) ELSE IF it.p = "n" THEN [fs EXCEPT !.ns = @ \cup {it.idx}]
                    ELSE IF it.p = "L" THEN [fs EXCEPT !.ls = @ \cup {<<it.len, it.idx>>}]
                    ELSE SetContent(SetKind(fs, it.p, IF it.perm = 0 THEN "unreadable" ELSE "regular"), it.p, NoContent)
 
@@ -86,11 +120,16 @@ Created(fs, it) == IF it.p = "n" THEN [fs EXCEPT !.ns = @ \cup {it.idx}]
 (* a final-component symlink is never followed, nothing that is not a regular file is     *)
 (* opened (so the call cannot block), nothing is created through a dangling link.         *)
 (* O_CREAT|O_EXCL refuses an existing file; O_TRUNC empties it; a created file has Perm.     *)
+(* Item i is evaluated in the state items 1..i-1 left behind (OpenBatch folds left to right):    *)
+(* its own MkdirAll runs immediately before its own check, never earlier; an item whose MkdirAll *)
+(* fails is answered with that error and nothing of it is opened or created.                     *)
 OpenItem(fs, it) ==
-  LET fs1 == IF it.mk /\ it.p = "c" /\ fs.sub = "absent" THEN [fs EXCEPT !.sub = "dir", !.c = "absent"] ELSE fs
+  LET mk  == IF it.mk THEN MkdirFor(fs, it) ELSE [ok |-> TRUE, fs |-> fs]
+      fs1 == mk.fs
       k   == ItemKind(fs1, it)
       F   == Flags(it.mode)
-  IN IF k \in {"regular", "unreadable"}
+  IN IF ~mk.ok THEN [r |-> "err", k |-> "mkdirfail", fs |-> fs1]
+     ELSE IF k \in {"regular", "unreadable"}
        THEN IF {"CREAT", "EXCL"} \subseteq F THEN [r |-> "err", k |-> k, fs |-> fs1]
             ELSE [r |-> "fd", k |-> k, fs |-> IF "TRUNC" \in F THEN SetContent(fs1, it.p, NoContent) ELSE fs1]
      ELSE IF k = "absent" /\ Creat(it.mode) THEN [r |-> "fd", k |-> k, fs |-> Created(fs1, it)]
@@ -137,6 +176,19 @@ Shows(obs, fs) ==
   /\ obs.a = fs.a /\ obs.b = fs.b /\ obs.sub = fs.sub
   /\ obs.c = (IF fs.sub = "dir" THEN fs.c ELSE "absent")
   /\ obs.target = "regular" /\ obs.tdir = "dir" /\ obs.nowhere = "absent" /\ obs.dev = "device"
+(* the directory-chain family: obs.tl .. obs.ttg are the host's lstat kinds of /w/l, /w/t, /w/l/d, *)
+(* /w/t/d, /w/l/d/f, /w/t/d/f, /w/t/d/g ("an item reported as failed leaves no file behind")       *)
+Has(b) == IF b THEN "regular" ELSE "absent"
+ShowsT(obs, fs) ==
+  LET viaT == fs.tl = "link" /\ fs.tt = "dir" IN
+  /\ obs.tl = (CASE fs.tl = "file" -> "regular" [] fs.tl = "link" -> "symt" [] OTHER -> fs.tl)
+  /\ obs.tt = fs.tt
+  /\ obs.ttd = (IF fs.tt = "dir" /\ fs.dt THEN "dir" ELSE "absent")
+  /\ obs.tld = (IF fs.tl = "dir" THEN (IF fs.dl THEN "dir" ELSE "absent")
+                ELSE IF viaT /\ fs.dt THEN "dir" ELSE "absent")
+  /\ obs.ttf = Has(fs.tt = "dir" /\ fs.dt /\ "f" \in fs.ft)
+  /\ obs.ttg = Has(fs.tt = "dir" /\ fs.dt /\ "g" \in fs.ft)
+  /\ obs.tlf = (IF fs.tl = "dir" THEN Has(fs.dl /\ "f" \in fs.fl) ELSE Has(viaT /\ fs.dt /\ "f" \in fs.ft))
 ShowsN(count, fs) == count = Cardinality(fs.ns)     \* entries of /w/n
 ShowsL(deep, count, fs) ==                          \* the long chain and the miss-* entries in it
   /\ deep = (IF fs.ld = 1 THEN "dir" ELSE "absent") /\ count = Cardinality(fs.ls) + Cardinality(fs.lk)
